@@ -80,6 +80,82 @@ def _validate(ctx, tr, label, max_rounds=8):
     return rejected
 
 
+CH_ACTIONS = ["SendMsg", "PushChunk", "PullChunk", "Decode"]
+
+
+def _channel(ctx, binary):
+    """Extra section: the end-to-end channel on the REAL chunking path (spec/net/Channel.tla).
+    send_msg_chunks -> Plexer pair -> recv_full_msg (old stack), write_message -> read_full_msgs (new stack),
+    messages around k * 65535 bytes, several protocols concurrently.  A rejection is a C21 violation only in the
+    sense of C21's own text (same messages, same order, no error) for the split the sender's chunking chose."""
+    if ctx.thorough:
+        ctx.tlc_mc("net", "MCChannel", "MCChannel.cfg", workers=4, timeout=1800, required_actions=CH_ACTIONS)
+        ctx.tlc_mc("net", "MCChannel", "MCChannelLive.cfg", workers=2, required_actions=CH_ACTIONS)
+    else:
+        ctx.tlc_mc("net", "MCChannel", "MCChannelQuick.cfg", workers=2, required_actions=CH_ACTIONS)
+    runs, runs2, msgs = (6, 3, 16) if ctx.thorough else (1, 1, 8)
+    tr = ctx.path("channel.ndjson")
+    ctx.run_bin(binary, ["channel-trace", "--seed", ctx.seed, "--runs", runs, "--runs2", runs2, "--msgs", msgs, "--out", tr])
+    events = vlib.read_ndjson(tr)
+    sends = [e for e in events if e["ev"] == "send"]
+    info = {"runs": runs + runs2, "messages_sent": len(sends), "messages_received": sum(1 for e in events if e["ev"] == "recv"),
+            "multi_segment_messages": sum(1 for e in sends if e["nseg"] > 1),
+            "exactly_k_segments_boundary": sum(1 for e in sends if e["len"] % 65535 in (0, 1, 2, 65533, 65534)),
+            "max_segments": max([e["nseg"] for e in sends] or [0]),
+            "message_types": sorted(set("%s:%s" % (e.get("mp", "network2"), e["kind"]) for e in sends))}
+    ctx.sample({"channel_events": [e for e in events if e["ev"] in ("send", "recv") and e["len"] > 65535][:2]})
+    rejected = 0
+    path = tr
+    for rnd in range(4):
+        ok, matched, total, first = ctx.tlc_trace("net", "TraceChannel", "TraceChannel.cfg", path)
+        ctx.cov["evaluations"] += matched
+        if ok or not events:
+            break
+        rejected += 1
+        start = max(i for i in range(matched + 1) if events[i]["ev"] == "open")
+        end = next((i for i in range(start + 1, len(events)) if events[i]["ev"] == "open"), len(events))
+        stack = events[start].get("stack")
+        # naming only: the message the receiver should have handed over next
+        kind = "?"
+        if first.get("ev") == "recv":
+            ch = first["ch"]
+            peer = {"side": "B" if ch["side"] == "A" else "A", "proto": ch["proto"], "role": "s" if ch["role"] == "c" else "c"}
+            k = sum(1 for e in events[start:matched] if e["ev"] == "recv" and e["ch"] == ch)
+            ps = [e for e in events[start:end] if e["ev"] == "send" and e["ch"] == peer]
+            if k < len(ps):
+                kind = "%s/%s/nseg%d" % (ps[k].get("mp", "network2"), ps[k]["kind"], ps[k]["nseg"])
+        sub = ctx.path("channel_rejected_run%s.ndjson" % events[start].get("run"))
+        vlib.write_ndjson(sub, events[start:end])
+        ctx.report("channel/%s/%s/%s" % (stack, kind, first.get("ev")),
+                   "end-to-end channel (%s): event %d of run %s is not the next message of the paired sender / not everything "
+                   "arrived: %s" % (stack, matched - start + 1, events[start].get("run"), json.dumps(first)[:300]),
+                   payload={"event": first, "open": events[start]}, src_file=sub)
+        events = events[:start] + events[end:]
+        path = ctx.path("channel_rest%d.ndjson" % rnd)
+        vlib.write_ndjson(path, events)
+    ctx.cov["traces_validated_against_impl"] += runs + runs2
+    if not rejected:
+        recvs = [i for i, e in enumerate(events) if e["ev"] == "recv" and e["len"] > 65535]
+        if not recvs:
+            raise vlib.ToolError("channel trace has no multi-segment message")
+        i = recvs[len(recvs) // 2]
+        rows = [dict(e) for e in events[: i + 3]]
+        rows[i]["id"] = (rows[i]["id"] + 1) % (1 << 30)
+        p1 = ctx.path("channel_selftest_id.ndjson")
+        vlib.write_ndjson(p1, rows)
+        ok1, m1, _, _ = ctx.tlc_trace("net", "TraceChannel", "TraceChannel.cfg", p1, count=False)
+        ctx.selftest("channel: wrong digest of multi-segment recv event %d" % (i + 1), (not ok1) and m1 == i)
+        if ctx.thorough:
+            j = next(k for k, e in enumerate(events) if e["ev"] == "send")
+            p2 = ctx.path("channel_selftest_drop.ndjson")
+            vlib.write_ndjson(p2, [e for k, e in enumerate(events) if k != j])
+            ok2, m2, _, _ = ctx.tlc_trace("net", "TraceChannel", "TraceChannel.cfg", p2, count=False)
+            ctx.selftest("channel: dropped send event %d" % (j + 1), not ok2, "matched %d" % m2)
+    info["rejected_runs"] = rejected
+    ctx.cov["channel_end_to_end"] = info
+    return rejected
+
+
 def run(ctx):
     binary = ctx.build("pv-net")
     ctx.assume("a message is identified by a 30-bit FNV digest of its encoding; the delivered value is re-encoded by the harness")
@@ -158,10 +234,15 @@ def run(ctx):
             rows[i]["out"] = rows[i]["out"][:-1]
             variant("late delivery in seg event %d" % (i + 1), rows, expect_at=i)
 
+    # 4. extra section: end-to-end channel on the real chunking path (Channel.tla)
+    _channel(ctx, binary)
+
     return ctx.finish(
         rule="MC: Reassembly.tla over all streams of 3 messages of length <= 4 (2 channels x 2 messages), all cut sets and "
              "poll interleavings; M3: per core protocol and stack, seeded message streams cut at all / single / double / "
              "1-byte / random / 64 KiB positions, pushed through the real receivers (ChannelBuffer::recv_full_msg over two "
              "Plexers; AnyMessage::from_payload; read_full_msgs over a socket with two interleaved channels); every segment "
-             "event must hand over exactly the messages whose end offset was reached, and leave the partial buffer the spec computes",
+             "event must hand over exactly the messages whose end offset was reached, and leave the partial buffer the spec computes; "
+             "extra: Channel.tla (send_msg_chunks o Mux contract o recv_full_msg) model-checked, and the real chunking path "
+             "(messages around k*65535 bytes, several protocols concurrently over real Plexers / write_message) validated by TraceChannel",
         exhaustive=False)
